@@ -157,6 +157,8 @@ import core
 import llm
 
 flow main
+  global $secret
+  $secret = "S3CR3T-VALUE-7f"
   activate llm continuation
   activate greeting
   activate other reactions
@@ -305,8 +307,16 @@ def run_conversation(mode, turns, responses, fallback, context=None, per_turn_cp
                     rec["reply"] = r
                     if isinstance(r, dict):
                         hist.append(r)
-        except Hang:
+        except Hang as e:
+            import traceback
+
             rec["hang"] = True
+            frames = [f for f in traceback.extract_tb(e.__traceback__) if "nemoguardrails" in f.filename]
+            names = [f.name for f in frames]
+            rec["through"] = names[:8]
+            outer = [f for f in frames if "/lang/" not in f.filename and not f.filename.endswith("colang/__init__.py")]
+            rec["where"] = f"{os.path.basename(outer[-1].filename)}:{outer[-1].name}" if outer else "?"
+            rec["via_start_flow"] = "_process_start_flow" in names
         except BaseException as e:  # noqa  -- the property: never raises
             import traceback
 
@@ -318,6 +328,7 @@ def run_conversation(mode, turns, responses, fallback, context=None, per_turn_cp
             rec["where"] = f"{os.path.basename(last.filename)}:{last.name}" if last else "?"
             through = [f.name for f in tb if "nemoguardrails" in f.filename]
             rec["through"] = through[-6:]
+            rec["via_start_flow"] = "_process_start_flow" in through
         out["turns"].append(rec)
         if "reply" not in rec:
             break
